@@ -88,6 +88,24 @@ func TestC06Nested(t *testing.T) {
 		ll = append(ll, &gtab.LookupTable{Meta: &gtab.LookupMetaInfo{LookupType: 4, LookupFlags: flags("ligFlags")},
 			Subtables: []gtab.Subtable{&gtab.Gsub4_1{Cov: lookups.CovTable([]glyph.ID{lFirst}), Repl: [][]gtab.Ligature{{{In: ligIn, Out: g("ligOut")}}}}}})
 
+		runNested(t, ll, gd, alpha, nCtx, "nested")
+	})
+}
+
+// TestC06NestedCoherent is TestC06Nested over the shared nested-list
+// generator: a smaller alphabet with two marks in different mark glyph sets,
+// flags that include both mark filtering sets, and actions that prefer a
+// lookup fitting the glyph they are applied to, so that a contextual child
+// of a contextual rule matches (and rewrites shared state) far more often.
+func TestC06NestedCoherent(t *testing.T) {
+	rapid.Check(t, func(t *rapid.T) {
+		n := lookups.GenNested(t, lookups.NestedOptions{})
+		runNested(t, n.List, n.Gdef, n.Alphabet, n.NumCtx, "nested-coherent")
+	})
+}
+
+func runNested(t *rapid.T, ll gtab.LookupList, gd *gdef.Table, alpha []glyph.ID, nCtx int, sub string) {
+	{
 		c := &listCase{
 			env:  &lookups.Env{Alphabet: alpha, Gdef: gd},
 			res:  &lookups.Result{List: ll},
@@ -119,10 +137,10 @@ func TestC06Nested(t *testing.T) {
 		if err := rec(nil); err != nil {
 			t.Fatalf("%v\n%s", err, c)
 		}
-		stats.LabelN("nested", "applications", c.applied)
-		stats.LabelN("nested", "applications-undefined", c.undef)
-		stats.LabelN("nested", "applications-rule-fired", c.fired)
-		stats.LabelN("nested", "applications-nontrivial", c.nontriv)
-		stats.CaseIn("nested", stats.Hash(c.String()), c.nontriv > 0, func() string { return c.String() }, fmt.Sprintf("contexts-%d", nCtx))
-	})
+		stats.LabelN(sub, "applications", c.applied)
+		stats.LabelN(sub, "applications-undefined", c.undef)
+		stats.LabelN(sub, "applications-rule-fired", c.fired)
+		stats.LabelN(sub, "applications-nontrivial", c.nontriv)
+		stats.CaseIn(sub, stats.Hash(c.String()), c.nontriv > 0, func() string { return c.String() }, fmt.Sprintf("contexts-%d", nCtx))
+	}
 }
